@@ -72,7 +72,10 @@ struct VecWorld : World {
     }
     void sut_destroy(Ctx &) override { if (q) { InSut s; q->free(q); } q = nullptr; }
     void sut_abandon() override { q = nullptr; }
-    void *sut_mutex() override { return nullptr; }
+#if QSIM_STRUCT
+    void *sut_mutex() override { return q ? q->qmutex : nullptr; }
+    bool sut_sees_mutex() override { return true; }
+#endif
     bool sut_user_lock() override { InSutLock s; q->lock(q); return true; }
     void sut_force_unlock() override { InSutLock s; q->unlock(q); }
     void sut_probe(Ctx &) override { InSut s; q->getat(q, 0, false); }
